@@ -267,9 +267,10 @@ func (ic *importClient) Shutdown() {
 	}
 	defer ic.c.tasks.Done()
 	ent := ic.c.imports[ic.id]
-	if ic.generation != ent.generation {
+	if ent == nil || ic.generation != ent.generation {
 		// A new reference was added concurrently with the Shutdown.  See
-		// impent.generation documentation for an explanation.
+		// impent.generation documentation for an explanation.  The
+		// entry is gone if the newer client has been shut down already.
 		ic.c.mu.Unlock()
 		return
 	}
